@@ -92,9 +92,11 @@ func (e *encoder) writeField(value reflect.Value, f *field) error {
 	}
 
 	invalid := f.t.BaseType().Invalid()
-	max := byte(value.Len())
-	if max > f.length {
-		max = f.length
+	// Cap the element count before narrowing it: a slice of 256 or more
+	// elements must not wrap around to a small count.
+	max := f.length
+	if value.Len() < int(f.length) {
+		max = byte(value.Len())
 	}
 	for i := byte(0); i < max; i++ {
 		elem := value.Index(int(i))
